@@ -1,5 +1,3 @@
-_PLANAR = ["lib/upipe/ubuf_pic_mem.c", "lib/upipe/ubuf_pic_common.c", "lib/upipe/ubuf_pic.c",
-           "lib/upipe/ubuf_sound_mem.c", "lib/upipe/ubuf_sound_common.c"]
 TARGET = dict(
     rule=("tape-decoded history (<=40 ops) over a family of <=8 handles sharing memory areas of one block manager "
           "(cow_block), or of one picture / sound manager whose planes are re-exported as blocks (cow_pic, cow_sound); "
@@ -17,11 +15,11 @@ TARGET = dict(
     execs=[dict(name="cow_block", harness="harness/C02_cow_block.c", repo=LIBUPIPE, engine=MEMFIX, share=1.0),
            dict(name="cow_pic", harness="harness/C02_cow_pic.c", repo=LIBUPIPE, engine=MEMFIX, share=1.0, case_scale=0.4),
            dict(name="cow_sound", harness="harness/C02_cow_sound.c", repo=LIBUPIPE, engine=MEMFIX, share=1.0, case_scale=0.4)],
-    quick=dict(cases=30000, budget=16), thorough=dict(cases=1200000, budget=170),
+    quick=dict(cases=30000, budget=16), thorough=dict(cases=600000, budget=150),
 )
 META = dict(
     technique="model-based property testing (rapidcheck tapes -> stateful C executors) with per-handle content copies and per-area owner sets, under ASan",
     text="Generated sharing histories over block / picture / sound handles (dup, splice, split, insert, append, delete, truncate, resize, prepend, copy, plane re-export, crop/extend, write mapping, free). After every operation all live handles are compared with their model copies (isolation); every write-mapping request must be refused while another live handle shows octets of the same memory area, must be granted when the handle is the only possible owner with one reference, and is unconstrained otherwise; granted mappings are exercised by changing every octet of the window. Sampling.",
     design_ref="DESIGN.md section 6, C02",
-    note="'may hold' sets over-approximate references (sound for the must-grant rule); the must-refuse rule is exact (derived from visible contents). Allocation failures are not generated.",
+    note="'may hold' sets over-approximate references (sound for the must-grant rule); the must-refuse rule is exact (derived from visible contents). Allocation failures are not generated. Three executors run one after the other on all workers (cow_block, cow_pic, cow_sound). replays/C02/cow_pic-reexport-overrun.tape reproduces a genuine out-of-bounds window of blocks re-exported from picture planes (pending/C02-pic-reexport-overrun.patch).",
 )
